@@ -1,1 +1,18 @@
 //! Verification hooks (`--cfg rustrtc_verif` only): rtp_transport.
+//!
+//! H6: read-only snapshot of `RtpTransport`'s listener registry / bridge state
+//! (the accessor itself lives at the end of `transports/rtp.rs`, next to the
+//! private state it reads).
+pub use crate::transports::rtp::VerifRegistrySnapshot;
+
+use crate::rtp::RtpPacket;
+use crate::transports::rtp::RtpTransport;
+use std::net::SocketAddr;
+use tokio::sync::mpsc;
+
+pub fn registry_snapshot(
+    transport: &RtpTransport,
+    txs: &[mpsc::Sender<(RtpPacket, SocketAddr)>],
+) -> VerifRegistrySnapshot {
+    transport.verif_registry_snapshot(txs)
+}
